@@ -118,7 +118,7 @@ impl Property for C05 {
         vec!["'first used from' = the first address whose request with that token this server answered".into(), "the server is updated before every presentation, so expiry is judged against its current second".into()]
     }
     fn pbt(&self, tier: Tier) -> PbtCfg {
-        PbtCfg { cases: tier.pick(300_000, 10_000_000), max_len: tier.pick(500, 1500), shrink_ms: 120_000 }
+        PbtCfg { cases: tier.pick(300_000, 5_000_000), max_len: tier.pick(500, 1500), shrink_ms: 120_000 }
     }
     fn required_labels(&self) -> Vec<&'static str> {
         vec!["connected", "stolen_request", "corrupt_request", "cross_response", "cross_same_id", "cross_other_server", "replay_response", "expired_at_request", "near_expiry", "bad_token_request", "stolen_request_small_server"]
